@@ -4,6 +4,8 @@ package flowcontrol
 
 import "sync/atomic"
 
+// OPTIONAL shim (tag no_fc when it no longer builds; the harness then reads Type(), String() and DebugInfo()).
+
 // VerifC18FC is the content of a global flow control.
 type VerifC18FC struct {
 	Name   string
